@@ -576,3 +576,148 @@ func replicaScenario(rep *core.Report, mode string, layout sim.Layout) {
 		rep.Violate("C11.no-exit", "exit/replica-apply/"+mode, map[string]any{"codes": ex}, wr.curReplay())
 	}
 }
+
+// shmCloseScenario: PRAGMA journal_mode=DELETE on a WAL database, request by request as SQLite issues it
+// (sqlite3PagerCloseWal): the connection takes EXCLUSIVE on the database file (PENDING then the SHARED
+// range, write locks), checkpoints and empties the log, closes its -shm descriptor (FUSE FLUSH ->
+// SHMHandle.Flush -> DB.UnlockSHM) WHILE STILL HOLDING EXCLUSIVE, unlinks the log, rewrites page 1 through
+// a rollback journal and only then unlocks the database file. From the close to the unlock every internal
+// write-lock attempt (TryAcquireWriteLock; Recover, Checkpoint, Import through AcquireWriteLock) must be
+// kept out (monitor: an internal writer does not enter while a connection holds a conflicting lock; here
+// the EXCLUSIVE lock on the database file), and a second connection's read-lock request must be refused
+// (conformance of the lock table). After the unlock the write lock must be obtainable again.
+func shmCloseScenario(rep *core.Report, layout sim.Layout) {
+	w := openWorld(rep, "wal", []string{"a", "b"}, nil, layout, nil)
+	defer w.close()
+	step := "start"
+	desc := func() any { return map[string]any{"kind": "shm-close", "step": step} }
+	w.curReplay = desc
+	a, b := w.clients["a"], w.clients["b"]
+	rq := func(n, t string, ls ...string) reqDef { return reqDef{N: n, T: t, Ls: ls} }
+	shmAll := []string{"WRITE", "CKPT", "RECOVER", "READ0", "READ1", "READ2", "READ3", "READ4", "DMS"}
+	must := func(c *sim.Conn, r reqDef) bool {
+		res, e := w.doReq(c, r, true)
+		if e != nil {
+			core.Infra("shm-close scenario: request %s: %v", r.N, e)
+		}
+		if !res.OK {
+			rep.Nonconf("shm-close scenario: request %s refused on an otherwise idle database: %s", r.N, res.Err)
+		}
+		return res.OK
+	}
+	// both connections are open WAL connections; b is idle, a holds a read transaction's database lock
+	for _, r := range []reqDef{rq("PendR", "R", "PENDING"), rq("SharedR", "R", "SHARED"), rq("PendU", "U", "PENDING"), rq("DmsR", "R", "DMS")} {
+		if !must(a, r) {
+			return
+		}
+	}
+	if !must(b, rq("DmsR", "R", "DMS")) {
+		return
+	}
+	// sqlite3PagerCloseWal: EXCLUSIVE on the database file
+	step = "exclusive"
+	if !must(a, rq("PendW", "W", "PENDING")) || !must(a, rq("SharedW", "W", "SHARED")) {
+		return
+	}
+	// sqlite3WalClose: checkpoint everything, empty the log
+	step = "checkpoint"
+	pa := sim.NewPager(a, w.layout, sim.PagerOpts{})
+	pa.AdoptFrom(w.pg)
+	if err := a.OpenWAL(); err != nil {
+		core.Infra("shm-close scenario: open wal: %v", err)
+	}
+	if err := pa.Ckpt("TRUNCATE"); err != nil {
+		rep.Nonconf("shm-close scenario: checkpoint by the connection holding EXCLUSIVE failed: %v", err)
+		return
+	}
+	// walIndexClose -> unixShmUnmap: close(-shm) while EXCLUSIVE is still held
+	step = "close-shm"
+	must(a, rq("ShmFlush", "F", shmAll...))
+	probes := func(at string, ops []string) bool {
+		rep.Case("shm-close/"+at, true)
+		rep.Eval(1)
+		if f := w.forgotten(); len(f) > 0 {
+			rep.Nonconf("shm-close scenario (%s): LiteFS's guard sets no longer show locks the connection still holds: %v", at, f)
+		}
+		// a second connection starts a read transaction
+		res, e := w.doReq(b, rq("PendR", "R", "PENDING"), false)
+		if e != nil {
+			core.Infra("shm-close scenario: %v", e)
+		}
+		rep.Eval(1)
+		if res.OK {
+			rep.Nonconf("shm-close scenario (%s): connection b was granted a PENDING read lock while connection a holds EXCLUSIVE on the database file (lock table %s)", at, w.observe(false).M)
+			_, _ = w.doReq(b, rq("PendU", "U", "PENDING"), true)
+		}
+		bad := w.entryProbe("journal-mode-switch/"+at, desc())
+		for _, op := range ops {
+			held := w.clientsHolding()
+			out := w.runOp(op, 7000)
+			rep.Eval(1)
+			rep.Case("shm-close/"+at+"/"+op, true)
+			if out.panic != nil {
+				rep.Violate("C11.no-panic", "panic/op/"+op+"/journal-mode-switch", out.panic, desc())
+				return false
+			}
+			if out.err == nil {
+				bad = true
+				if len(held) > 0 {
+					rep.Violate("C11.enter-only-when-free", "operation-proceeded-while-client-holds/"+op+"/"+firstLockOf(held)+"/"+w.mode+"/journal-mode-switch/"+at,
+						map[string]any{"op": op, "at": at, "clients_holding": held}, desc())
+				}
+				if out.halt != nil {
+					w.db.ReleaseHaltLock(context.Background(), 7000)
+				}
+				if out.gs != nil {
+					out.gs.Unlock()
+				}
+			}
+		}
+		return !bad
+	}
+	if !probes("after-close-shm", nil) {
+		return
+	}
+	// the log is unlinked, page 1 (journal-mode bytes 1/1) is rewritten through a rollback journal
+	step = "journal"
+	w.ver++
+	pa.SetPlan(sim.Plan{Kind: "j", Ns: 3, M: []int{1}, Out: "commit", Fin: "DELETE", V: w.ver, Wal: false})
+	for _, f := range []struct {
+		n string
+		f func() error
+	}{{"unlink wal", pa.JRmWal}, {"create journal", pa.JCreate}, {"sync journal, EXCLUSIVE again", pa.JSync}, {"write page 1", func() error { return pa.JPage(1) }}} {
+		if err := f.f(); err != nil {
+			rep.Nonconf("shm-close scenario: %s failed for the connection holding EXCLUSIVE: %v", f.n, err)
+			return
+		}
+	}
+	step = "hot-journal"
+	pos0 := w.db.Pos()
+	if !probes("journal-written", []string{"Recover", "Checkpoint", "Import"}) {
+		return
+	}
+	if _, err := os.Stat(w.db.JournalPath()); err != nil {
+		rep.Nonconf("shm-close scenario: the journal of the open transaction disappeared: %v", err)
+		return
+	}
+	step = "commit"
+	if err := pa.JFinal(); err != nil {
+		rep.Nonconf("shm-close scenario: commit of the journal-mode change failed: %v", err)
+		return
+	}
+	rep.Eval(1)
+	if pos := w.db.Pos(); pos.TXID != pos0.TXID+1 {
+		rep.Nonconf("shm-close scenario: the journal-mode change moved the position from %s to %s", pos0, pos)
+	}
+	step = "unlock"
+	must(a, rq("DbUnlockAll", "U", "PENDING", "RESERVED", "SHARED"))
+	a.CloseJournal()
+	rep.Eval(1)
+	if !w.entryProbe("journal-mode-switch/after-unlock", desc()) {
+		rep.Nonconf("shm-close scenario: TryAcquireWriteLock refused after the connection released EXCLUSIVE (lock table %s)", w.observe(false).M)
+	}
+	if ex := w.node.Exits(); len(ex) > 0 {
+		rep.Violate("C11.no-exit", "exit/journal-mode-switch", map[string]any{"codes": ex}, desc())
+	}
+	w.curReplay = nil
+}
